@@ -861,6 +861,45 @@ class Gen:
                         d.stream(ST["exception"], d.exception(1, ctx=loc))
                         self.dump("location_content_product", d.finish())
 
+    # ------------------------------------------------------------- round 5: address tables (C01/LModel.v) — interval patterns x list kind
+    def lookup_product(self):
+        """The same list of (base, size) intervals is written as a memory list, a module list, a memory-info list and a Memory64 list of one dump
+        (plus a thread list whose ids repeat): disjoint in both orders, identical, nested, partially overlapping, adjacent, empty in between,
+        ending at 2^64-1, passing 2^64, and 12-20 pseudo-random intervals (more than the eight probed elements: binary search over a longer table);
+        bases at the bottom, around 2^32 and at the top of the address space; both byte orders."""
+        T64 = 1 << 64
+        pats = [
+            [(0, 16), (32, 16), (64, 16)], [(64, 16), (32, 16), (0, 16)], [(0, 16), (0, 16)], [(0, 16), (0, 16), (0, 16), (8, 8)],
+            [(0, 64), (16, 16)], [(16, 16), (0, 64)], [(0, 24), (16, 24)], [(16, 24), (0, 24)], [(0, 16), (16, 16), (32, 16)],
+            [(0, 16), (16, 0), (16, 16)], [(0, 0)], [(0, 8), (0, 0), (8, 8), (4, 8), (100, 1), (99, 1), (101, 1)],
+            [(0, 1), (1, 1), (2, 1), (3, 1), (4, 1), (5, 1), (6, 1), (7, 1), (8, 1), (9, 1)], [(9, 1), (8, 1), (7, 1), (6, 1), (5, 1), (4, 1), (3, 1), (2, 1), (1, 1), (0, 1)],
+            [(0, 40), (8, 8), (24, 8), (48, 8)], [(48, 8), (0, 8), (0, 56)],
+        ]
+        for k in range(6 if self.tier == "quick" else 60):
+            n = self.rng.range(12, 20)
+            pats.append([(self.rng.range(0, 40) * 4, self.rng.choice([0, 1, 4, 8, 8, 16, 40])) for _ in range(n)])
+        tops = [[(T64 - 32, 16), (T64 - 16, 15)], [(T64 - 32, 16), (T64 - 16, 16)], [(T64 - 16, 16), (T64 - 32, 32), (T64 - 1, 1)], [(T64 - 8, 7), (T64 - 8, 8), (T64 - 64, 56)],
+                [(T64 - 1, 1), (0, 1), (T64 - 2, 1)]]
+        for be in (False, True):
+            for bi, origin in enumerate((0, 0x1000, (1 << 32) - 24, T64 - 0x400)):
+                for pi, pat in enumerate(pats + tops):
+                    ivs = [((origin + b) % T64, z) for b, z in pat] if pi < len(pats) else (pat if bi == 0 else None)
+                    if ivs is None:
+                        continue
+                    d = Dump(be, ndir=6)
+                    blob = d.add(bytes((7 * i + 1) & 0xff for i in range(64)))
+                    name = d.utf16("m%d" % pi)
+                    d.stream(ST["system_info"], d.sysinfo([9, 0][pi % 2]))
+                    d.stream(ST["memory_list"], d.list([d.u64(b) + d.u32(min(z, 64), blob) for b, z in ivs]))
+                    d.stream(ST["module_list"], d.list([d.module(b, z, name) for b, z in ivs]))
+                    d.stream(ST["memory_info"], d.exlist([d.u64(b, b) + d.u32(4, 0) + d.u64(z) + d.u32(0x1000, 4, 0x20000, 0) for b, z in ivs], 48, hdr=16, wide=True))
+                    d.stream(ST["thread_list"], d.list([d.thread([1, 2, 1, 3, 2, 1, 0xffffffff, 0][(i + pi) % 8], teb=b) for i, (b, z) in enumerate(ivs)]))
+                    hdr_at = len(d.buf) + (-len(d.buf)) % 4
+                    data_at = hdr_at + 16 + 16 * len(ivs)
+                    d.stream(ST["memory64"], d.u64(len(ivs), data_at) + b"".join(d.u64(b, z) for b, z in ivs))
+                    d.add(bytes((3 * i) & 0xff for i in range(sum(z for _, z in ivs))), align=1)
+                    self.dump("lookup_product", d.finish())
+
     # ------------------------------------------------------------- round 4: UTF-16 strings ending at / just past the end of the file, per reference site
     def utf16_edge_product(self):
         """The string blob is the last thing in the file: A payload bytes follow the u32 size word, and the size word says A + delta.
@@ -1031,6 +1070,7 @@ class C01(PropBase):
         g.round3()
         g.round4(1500 if q else 9000)
         g.location_content_product()
+        g.lookup_product()
         g.utf16_edge_product()
         g.synth_and_samples(700 if q else 8000, 160 if q else 2500)
         g.random_bytes(200 if q else 3000)
